@@ -44,7 +44,7 @@ structure Facts where
   devicePayloadAttached : Bool -- deviceSignature carries a payload (it must not: detached)
   deviceSigParses : Bool
   deviceSigAccepts : Bool      -- primitive accepts over Sig_structure(protected, "", DeviceAuthenticationBytes(reader's transcript, docType, deviceNameSpacesBytes))
-  -- facts the pinned code never looks at (ISO 18013-5 9.1.2.4 issuer data authentication):
+  -- ISO 18013-5 9.1.2.4 issuer data authentication (`issuer_data_authentication`):
   digestsMatch : Bool          -- every disclosed item's digest equals the MSO valueDigests entry
   docTypeMatches : Bool        -- MSO docType = document docType
   deriving DecidableEq, Repr
@@ -64,11 +64,12 @@ structure Outcome where
 def prim (parses accepts : Bool) : Bytes → Bytes → Option Bool :=
   fun _ _ => if parses then some accepts else none
 
-/-- `issuer_authentication` -/
+/-- `issuer_authentication` followed by `issuer_data_authentication` -/
 def issuerAuthentication (f : Facts) : Bool :=
   f.issuerKeyParses &&
   verifySign1 (-7) (prim f.issuerSigParses f.issuerSigAccepts)
-    ⟨[], if f.issuerPayloadAttached then some [] else none, [], false⟩ f.issuerAlg none none == .success
+    ⟨[], if f.issuerPayloadAttached then some [] else none, [], false⟩ f.issuerAlg none none == .success &&
+  f.msoDecodes && f.docTypeMatches && f.digestsMatch
 
 /-- `device_authentication`: `none` = panic (`GenericArray::from_slice` on a wrong length) -/
 def deviceAuthentication (f : Facts) : Option Bool :=
